@@ -226,15 +226,17 @@ class LoopExplorer:
                     f"`{ast.unparse(s)[:50]}`")
         return meter
 
-    def explore(self):
-        start = (tuple(sorted(self.init.items())), 0)
+    def explore(self, meter0=0, first_nonascii=False):
+        start = (tuple(sorted(self.init.items())), meter0, bool(first_nonascii))
         seen = {start}
         todo = [start]
         while todo:
-            vars_t, meter = todo.pop()
+            vars_t, meter, first = todo.pop()
             for cp in self.codepoints:
                 c = utf8_width(cp)
                 if c not in self.widths:
+                    continue
+                if first and cp < 0x80:
                     continue
                 self.cp = cp
                 st = dict(vars_t)
@@ -263,7 +265,7 @@ class LoopExplorer:
                 # only the integer locals that the loop itself carries over
                 carried = tuple(sorted((k, v) for k, v in st.items()
                                        if k in self.init))
-                nxt = (carried, m2)
+                nxt = (carried, m2, False)
                 if m2 > self.limit + 8:
                     continue       # already a violation; do not diverge
                 if nxt not in seen:
